@@ -10,15 +10,17 @@ EXTENDS Integers, Sequences, FiniteSets, TLC
 CONSTANTS PoolSize,       \* 0 = unbounded
           NReq, Reuse,    \* Reuse: idle_timeout is set (clients poll again after a delivery)
           KF_NoRespawn,   \* deviation: _remove_client does not start a client for pending requests
-          MaxClients      \* bound on client greenlets ever started (requeue / idle-expiry cycles are unbounded otherwise)
+          MaxClients,     \* bound on client greenlets ever started (used as a state constraint in the safety configurations)
+          MaxRequeue      \* how often the downstream may time a connection out under a waiting request (Requeue); a downstream
+                          \* that does so for ever prevents delivery by definition, so liveness is claimed for finitely many
 
-VARIABLES clients, queue, result, called, nextc, conns, maxconns
-vars == <<clients, queue, result, called, nextc, conns, maxconns>>
+VARIABLES clients, queue, result, called, nextc, conns, maxconns, rq
+vars == <<clients, queue, result, called, nextc, conns, maxconns, rq>>
 Reqs == 1..NReq
 \* clients: function id -> [st, req]
 Live == {c \in DOMAIN clients : clients[c].st \in {"new", "idle", "busy"}}
 InPool == {c \in DOMAIN clients : clients[c].st # "gone"}
-Init == clients = <<>> /\ queue = <<>> /\ result = [r \in Reqs |-> 0] /\ called = {} /\ nextc = 1 /\ conns = 0 /\ maxconns = 0
+Init == clients = <<>> /\ queue = <<>> /\ result = [r \in Reqs |-> 0] /\ called = {} /\ nextc = 1 /\ conns = 0 /\ maxconns = 0 /\ rq = 0
 
 AddClient(cs) == cs \o <<[st |-> "new", req |-> 0]>>
 Bounded == Len(clients) <= MaxClients
@@ -29,7 +31,7 @@ Attempt(r) ==
          room == PoolSize = 0 \/ Cardinality(InPool) < PoolSize
      IN clients' = IF ~idle /\ room THEN AddClient(clients) ELSE clients
   /\ queue' = Append(queue, r)
-  /\ UNCHANGED <<result, nextc, conns, maxconns>>
+  /\ UNCHANGED <<result, nextc, conns, maxconns, rq>>
 \* a new client reaches poll(); an idle client is woken by the semaphore
 Poll(c) ==
   /\ clients[c].st \in {"new", "idle"}
@@ -40,17 +42,17 @@ Poll(c) ==
           /\ maxconns' = IF conns' > maxconns THEN conns' ELSE maxconns
      ELSE /\ clients[c].st = "new"
           /\ clients' = [clients EXCEPT ![c].st = "idle"] /\ UNCHANGED <<queue, conns, maxconns>>
-  /\ UNCHANGED <<result, called, nextc>>
+  /\ UNCHANGED <<result, called, nextc, rq>>
 \* the delivery ends (success or failure): the result goes to the request the client holds
 Deliver(c) ==
   /\ clients[c].st = "busy"
   /\ result' = [result EXCEPT ![clients[c].req] = clients[c].req]
   /\ \/ /\ Reuse /\ clients' = [clients EXCEPT ![c] = [st |-> "idle", req |-> 0]] /\ UNCHANGED conns
      \/ /\ clients' = [clients EXCEPT ![c] = [st |-> "dead", req |-> 0]] /\ conns' = conns - 1      \* no reuse, or the connection failed
-  /\ UNCHANGED <<queue, called, nextc, maxconns>>
+  /\ UNCHANGED <<queue, called, nextc, maxconns, rq>>
 \* server-initiated time-out noticed before a delivery: the request goes back to the front, the client ends
 Requeue(c) ==
-  /\ clients[c].st = "busy" /\ Reuse
+  /\ clients[c].st = "busy" /\ Reuse /\ rq < MaxRequeue /\ rq' = rq + 1
   /\ queue' = <<clients[c].req>> \o queue
   /\ clients' = [clients EXCEPT ![c] = [st |-> "dead", req |-> 0]] /\ conns' = conns - 1
   /\ UNCHANGED <<result, called, nextc, maxconns>>
@@ -58,14 +60,14 @@ IdleExpire(c) ==
   /\ clients[c].st = "idle" /\ Reuse
   /\ clients' = [clients EXCEPT ![c].st = "dead"]
   /\ conns' = IF conns > 0 THEN conns - 1 ELSE 0
-  /\ UNCHANGED <<queue, result, called, nextc, maxconns>>
+  /\ UNCHANGED <<queue, result, called, nextc, maxconns, rq>>
 \* link callback: _remove_client
 Unlink(c) ==
   /\ clients[c].st = "dead"
   /\ LET cs == [clients EXCEPT ![c].st = "gone"]
          empty == {d \in DOMAIN cs : cs[d].st # "gone"} = {}
      IN clients' = IF queue # <<>> /\ empty /\ ~KF_NoRespawn THEN AddClient(cs) ELSE cs
-  /\ UNCHANGED <<queue, result, called, nextc, conns, maxconns>>
+  /\ UNCHANGED <<queue, result, called, nextc, conns, maxconns, rq>>
 Next == \/ \E r \in Reqs : Attempt(r)
         \/ \E c \in DOMAIN clients : Poll(c) \/ Deliver(c) \/ Requeue(c) \/ IdleExpire(c) \/ Unlink(c)
 Spec == Init /\ [][Next]_vars
